@@ -126,6 +126,9 @@ var rejectExprs = []string{
 	`(datetime "2021-01-01")`, `(datetime "2021-01-01 24:00:00")`, `(datetime "2021-01-01 10:60:00")`, `(datetime "2021-01-01 10:00:60")`, `(datetime "2021-01-01T10:00:00")`,
 	`(date "01/02/2021" "2006-01-02")`, `(date "2021-01-01" "02/01/2006")`, `(date "31/02/2021" "02/01/2006")`, `(t_date "2021-01-01")`, `(t_time "x" "2006-01-02")`,
 	`(td_date "2021-01-01" "2006-01-02")`, `(td_time "2021-01-01")`, `(date 20210101)`, `(date "2021-01-01" 5)`, `(date)`, `(date "a" "b" "c")`,
+	// an explicitly given layout is the layout, the empty one included; white space is text like any other
+	`(date "2021-01-01" "")`, `(datetime "2021-01-01 10:00:00" "")`, `(to_date "x" "")`, `(t_date "2021-01-01" "")`, `(to_datetime " " "")`,
+	`(date "2021-01-01 ")`, `(datetime " 2021-01-01 10:00:00")`, `(td_date "2021-01-01\t")`, `(date "2021-01-01" " 2006-01-02")`, `(date " 2021-01-01" "2006-01-02")`,
 	`(to_datetime "2021-01-01T10:00:00+25:00" "2006-01-02T15:04:05Z07:00")`, `(t_time "Foo 2 2021 10:00" "Jan 2 2006 15:04")`,
 }
 
@@ -370,11 +373,29 @@ func checkC19(c C19Case, r *Rec) *Violation {
 			for _, cmp := range []struct {
 				op   string
 				want bool
-			}{{"<", want < 0}, {"=", want == 0}, {">", want > 0}, {"<=", want <= 0}, {"!=", want != 0}} {
+			}{{"<", want < 0}, {"=", want == 0}, {">", want > 0}, {"<=", want <= 0}, {"!=", want != 0}, {">=", want >= 0}} {
 				src := fmt.Sprintf("(%s %s %s)", cmp.op, ea, eb)
 				b, o := evalBool(src, mask)
 				if o.Panic != nil || o.Err != nil || b != cmp.want {
 					return Violf("C19: %s evaluates to %v (config %s); component-wise comparison gives %v", src, o, maskName(mask), cmp.want)
+				}
+				// the same with one text, or both, arriving through a variable (a literal conversion on one
+				// side is a constant the optimizer may fold; the other side is not)
+				vcall := func(op, v string) string {
+					if n == 0 {
+						return fmt.Sprintf("(%s %s)", op, v)
+					}
+					return fmt.Sprintf("(%s %s %d)", op, v, n)
+				}
+				for _, vsrc := range []string{
+					fmt.Sprintf("(%s %s %s)", cmp.op, ea, vcall(c.OpB, "vb")),
+					fmt.Sprintf("(%s %s %s)", cmp.op, vcall(c.OpA, "va"), eb),
+					fmt.Sprintf("(%s %s %s)", cmp.op, vcall(c.OpA, "va"), vcall(c.OpB, "vb")),
+				} {
+					ov := evalSrc(vsrc, map[string]interface{}{"va": c.A, "vb": c.B}, mask)
+					if bv, isBool := ov.Val.(bool); ov.Panic != nil || ov.Err != nil || !isBool || bv != cmp.want {
+						return Violf("C19: %s with va=%q vb=%q evaluates to %v (config %s); component-wise comparison gives %v", vsrc, c.A, c.B, ov, maskName(mask), cmp.want)
+					}
 				}
 			}
 		}
@@ -436,11 +457,26 @@ func checkC19(c C19Case, r *Rec) *Violation {
 			for _, cmp := range []struct {
 				op   string
 				want bool
-			}{{"<", want < 0}, {"=", want == 0}, {">", want > 0}} {
+			}{{"<", want < 0}, {"=", want == 0}, {">", want > 0}, {"<=", want <= 0}, {">=", want >= 0}} {
 				src := fmt.Sprintf("(%s %s %s)", cmp.op, ea, eb)
 				b, o := evalBool(src, mask)
 				if o.Panic != nil || o.Err != nil || b != cmp.want {
 					return Violf("C19: %s evaluates to %v; chronological order gives %v", src, o, cmp.want)
+				}
+				vcall := func(op, v string) string {
+					if c.Layout == "" {
+						return fmt.Sprintf("(%s %s)", op, v)
+					}
+					return fmt.Sprintf(`(%s %s "%s")`, op, v, c.Layout)
+				}
+				for _, vsrc := range []string{
+					fmt.Sprintf("(%s %s %s)", cmp.op, ea, vcall(c.OpB, "vb")),
+					fmt.Sprintf("(%s %s %s)", cmp.op, vcall(c.OpA, "va"), eb),
+				} {
+					ov := evalSrc(vsrc, map[string]interface{}{"va": c.A, "vb": c.B}, mask)
+					if bv, isBool := ov.Val.(bool); ov.Panic != nil || ov.Err != nil || !isBool || bv != cmp.want {
+						return Violf("C19: %s with va=%q vb=%q evaluates to %v (config %s); chronological order gives %v", vsrc, c.A, c.B, ov, maskName(mask), cmp.want)
+					}
 				}
 			}
 		}
